@@ -18,6 +18,8 @@ def tables : List (String → List String → Option String) := []
 
 /-- Stateful groups, selected by a first line `#mode <name>`. -/
 def modes : List Mode := []
+  ++ [Drv.CratesV1.mode]
+  ++ [Drv.CratesV1Oracle.mode]
 
 def dispatch (line : String) : String :=
   match tokens line with
